@@ -8,6 +8,7 @@ import (
 	"context"
 	"encoding/binary"
 	"encoding/json"
+	"errors"
 	"fmt"
 	"time"
 
@@ -384,6 +385,15 @@ func (b *BloomSearchEngine) processIngestRequest(
 	for partitionID, rows := range partitionedRows {
 		rowBytesList := make([][]byte, len(rows))
 		for i, row := range rows {
+			if row == nil {
+				// A nil row marshals to the JSON literal null, which is not a
+				// row object: a scan would fail on it and hide the rest of its
+				// block. Reject the batch like any other unserializable row.
+				err := errors.New("row is nil")
+				verifEv("actor_ack", req, err)
+				sendOptionalWithContext(ctx, req.doneChan, fmt.Errorf("failed to serialize row: %w", err))
+				return
+			}
 			rowBytes, err := json.Marshal(row)
 			if err != nil {
 				verifEv("actor_ack", req, err)
